@@ -22,7 +22,10 @@ STAGES = ["none", "bad_owner_signature", "expired", "missing_link", "unauthorise
           "disagreeing_links_extra_artifact", "disagreeing_links_third_signer",
           # the caller trusts two owner keys; one of them signed twice (two distinct signature values of a randomised scheme),
           # the other not at all
-          "one_owner_signed_twice_other_not"]
+          "one_owner_signed_twice_other_not",
+          # threshold 2 and only one functionary signed; the second functionary's file is a copy of the first one's link
+          # with an additional junk entry under the second functionary's id
+          "threshold_unmet_copy_filed_for_second"]
 OUTCOMES = ["exit0", "exit1", "exit2", "exit127", "exit255", "killed", "not_found", "creates", "modifies", "deletes"]
 RULESETS = ["none", "satisfied", "violated_materials", "violated_products", "products_only_create_preexisting",
             "violated_products_named_like_a_step"]
@@ -55,7 +58,7 @@ def rules_of(rs):
 def build_cell(W, rng, stage, outcome, rs, ninsp, level, keyset=FUNC, random_extra=False):
     """returns (reqs, assemble(wires)->case)"""
     ka, kb, kc, kd = keyset[:4]
-    thr = 2 if stage in ("threshold_unmet", "disagreeing_links", "disagreeing_links_extra_artifact", "disagreeing_links_third_signer") else 1
+    thr = 2 if stage in ("threshold_unmet", "disagreeing_links", "disagreeing_links_extra_artifact", "disagreeing_links_third_signer", "threshold_unmet_copy_filed_for_second") else 1
     insp = []
     tags = []
     for j in range(ninsp):
@@ -172,6 +175,11 @@ def build_cell(W, rng, stage, outcome, rs, ninsp, level, keyset=FUNC, random_ext
             if stage == "missing_link":
                 continue
             if stage == "threshold_unmet" and k == kb:
+                continue
+            if stage == "threshold_unmet_copy_filed_for_second" and k == kb:
+                cp = w(("build", ka))
+                cp["signatures"] = [{"keyid": W.kid(kb), "sig": "00" * 64}] + cp["signatures"]
+                files[prefix + f"build.{W.pfx(kb)}.link"] = scen.dumps(cp)
                 continue
             files[prefix + f"build.{W.pfx(k)}.link"] = scen.dumps(lk)
         if surplus:
@@ -296,7 +304,7 @@ def main(ctx):
                           "levels": ["top", "delegated"], "cells": ncells}
     return common.finish(
         PROP, ctx.tier, ctx.seed, res, t0=ctx.t0, level="fault_enumeration",
-        rule="complete grid failing stage (20) x inspection outcome (10) x inspection rule set (6) x 1-2 inspections x "
+        rule="complete grid failing stage (21) x inspection outcome (10) x inspection rule set (6) x 1-2 inspections x "
              "{top-level, delegated layout}; every cell is one real in_toto_verify call in a fresh working directory, "
              "observed through the inspection command's own sentinel/snapshot files; every cell is non-trivial and "
              "distinct; thorough repeats the grid with other key types",
